@@ -14,7 +14,13 @@ is solved, in mpmath, so that (mu(q) - max(y)) / sigma(q) hits the target).  Ora
   optgrad/…/reference       … = gradient of the reference objective
 Part C (history search, evaluator "history"): breadth-first enumeration of ALL sequences of length <= depth over
 {propose(bfgs), propose(diffev), add_evaluation(x, y[, err])} on fresh GpOptimiser objects (every history is rebuilt
-and replayed from the constructor), random starts scripted on the alphabet {0, 1/2, 1-}.  Invariants in every state.
+and replayed from the constructor), random starts scripted on the alphabet {0, 1/2, 1-}.  Invariants in every state, and in
+every state the acquisition held by the optimiser is probed (__call__, opt_func, opt_func_gradient) at a fixed menu of points -
+including points probed in earlier states, the point just added and the point about to be added - against a FRESH GpOptimiser
+built directly from the accumulated data and the same hyper-parameters:
+  history/probe/<Acq>/<method>/differs-from-fresh-optimiser-on-the-same-data     the acquisition depends on the history
+  history/probe/<Acq>/opt_func_gradient/gradient-differs-from-fresh-optimiser-on-the-same-data
+  history/probe/<Acq>/optvalue-differs-from-opt_func                             value part of opt_func_gradient != opt_func
 """
 import copy
 import itertools
@@ -432,6 +438,25 @@ def initial_data(cfg):
 
 
 MENU = {1: [[1.75], [0.625], [2.875], [1.25]], 2: [[1.75, 1.0], [0.625, 2.375], [2.875, 0.375], [1.25, 1.5]]}
+# probes of the acquisition in every reached state: besides the roles listed in run_one_history.probes one point that is never added
+PROBE_FIXED = {1: [2.2], 2: [2.2, 0.3]}
+PROBE_RTOL = 1e-12
+# floor of the scale a deviation is measured against: the objective -ln EI and mean + kappa sigma are sums of O(1) terms (absolute
+# rounding ~ eps x 1 where they cancel); EI itself and the variance are products (purely relative)
+PROBE_FLOOR = {
+    "EI": {"__call__": 0.0, "opt_func": 1.0, "opt_func_gradient": 1.0},
+    "UCB": {"__call__": 1.0, "opt_func": 1.0, "opt_func_gradient": 1.0},
+    "MV": {"__call__": 0.0, "opt_func": 0.0, "opt_func_gradient": 0.0},
+}
+
+
+def rel_dev(a, b, floor):
+    """|a - b| relative to max(|a|, |b|, floor); identical values (including identical non-finite ones) deviate by 0"""
+    if a == b or (a != a and b != b):
+        return 0.0
+    if not (np.isfinite(a) and np.isfinite(b)):
+        return float("inf")
+    return abs(a - b) / max(abs(a), abs(b), floor)
 
 
 def menu_point(d, k):
@@ -536,7 +561,103 @@ def run_one_history(cfg, hist, bad, counters):
                 bad("history/incumbent/mu_max-is-not-max-y", f"after {where}: acquisition.mu_max = {mm!r}, max(y) = {max(my)!r}", history=done)
             return ok
 
-        invariants("constructor", [])
+        carry = {"pt": None}
+
+        def probes(where, done, just_added, pending_now, nadd_now):
+            """The acquisition held by the optimiser, evaluated at the probe menu in THIS state, against a fresh optimiser
+            built directly from the accumulated data with the same hyper-parameters (history-independence)."""
+            theta = getattr(opt.gp, "hyperpars", None)
+            if theta is None:
+                raise HarnessError("seam missing: GpRegressor.hyperpars (the hyper-parameters of the optimiser's current model)")
+            facq = getattr(ACQM, aname)(cfg["kappa"]) if cfg["acq"] == "UCB" else getattr(ACQM, aname)()
+            fkw = {} if me is None else {"y_err": np.array(me)}
+            calls_before = script.calls
+            try:
+                with lib("GpOptimiser-fresh"):
+                    fopt = G.GpOptimiser(np.array(mx), np.array(my), bounds=list(bounds), acquisition=facq, hyperpars=np.array(theta, dtype=float).copy(), **fkw)
+            except LibFailure as e:
+                bad(f"history/probe/fresh-GpOptimiser-from-accumulated-data/raises:{e.exc_type}", f"after {where}: a fresh GpOptimiser on the accumulated data with the current hyper-parameters raised: {e}", history=done, traceback=e.tb)
+                return
+            finally:
+                script.calls = calls_before  # the reference object must not consume the scripted starts of the history
+            fa = fopt.acquisition
+            # ---- the probe menu of this state (roles; the same point may appear under several roles: repeated evaluation)
+            plist = []
+            if carry["pt"] is not None:
+                plist.append(("last-point-probed-in-the-previous-state", carry["pt"]))
+            if just_added is not None:
+                plist.append(("point-just-added", list(just_added)))
+            plist.append(("menu-point-0", list(MENU[d][0])))
+            plist.append(("initial-data-point", list(rows[1])))
+            plist.append(("menu-point-1", list(MENU[d][1])))
+            plist.append(("off-menu-point", list(PROBE_FIXED[d])))
+            if just_added is not None:
+                plist.append(("point-just-added-again", list(just_added)))
+            if pending_now is not None:
+                plist.append(("pending-proposal", np.asarray(pending_now, float).reshape(-1).tolist()))
+            else:
+                plist.append(("next-menu-point-to-be-added", list(MENU[d][nadd_now % len(MENU[d])])))
+            meths = ["__call__", "opt_func", "opt_func_gradient"]
+            for j, (role, pt) in enumerate(plist):
+                # input forms of the callers inside the library: (1, d) from add_evaluation, (d,) from the optimisers
+                mk = (lambda: np.array(pt, dtype=float).reshape(1, d)) if (j + len(done)) % 2 == 0 else (lambda: np.array(pt, dtype=float))
+                got, want = {}, {}
+                rot = (j + len(done) + nadd_now) % 3
+                for m in meths[rot:] + meths[:rot]:
+                    try:
+                        with lib(f"{aname}.{m}"):
+                            got[m] = getattr(opt.acquisition, m)(mk())
+                        with lib(f"{aname}.{m}-fresh"):
+                            want[m] = getattr(fa, m)(mk())
+                    except LibFailure as e:
+                        bad(f"history/probe/{aname}/{m}/raises:{e.exc_type}", f"after {where}: {m} at probe '{role}' {pt} raised: {e}", history=done, traceback=e.tb)
+                        return
+                    counters["n"] += 1
+                vals = {}
+                for m in meths:
+                    g_, w_ = got[m], want[m]
+                    if m == "opt_func_gradient":
+                        if not (isinstance(g_, tuple) and len(g_) == 2 and isinstance(w_, tuple) and len(w_) == 2):
+                            bad(f"history/probe/{aname}/opt_func_gradient/return-form", f"after {where}: opt_func_gradient returned {type(g_).__name__}", history=done)
+                            continue
+                        gg, wg = np.asarray(g_[1], float).reshape(-1), np.asarray(w_[1], float).reshape(-1)
+                        g_, w_ = g_[0], w_[0]
+                    gv, wv = np.asarray(g_, float).reshape(-1), np.asarray(w_, float).reshape(-1)
+                    if gv.size != 1 or wv.size != 1:
+                        bad(f"history/probe/{aname}/{m}/not-a-scalar", f"after {where}: {m} returned {gv.size} values at one point", history=done)
+                        continue
+                    gv, wv = float(gv[0]), float(wv[0])
+                    vals[m] = gv
+                    r = rel_dev(gv, wv, PROBE_FLOOR[cfg["acq"]][m])
+                    counters["slack"][f"history/probe-vs-fresh/{cfg['acq']}/{m}"] = max(counters["slack"].get(f"history/probe-vs-fresh/{cfg['acq']}/{m}", 0.0), r / PROBE_RTOL)
+                    if not r <= PROBE_RTOL:
+                        bad(f"history/probe/{aname}/{m}/differs-from-fresh-optimiser-on-the-same-data",
+                            f"after {where}: {m} of the optimiser's acquisition at probe '{role}' {pt} = {gv!r}, a fresh GpOptimiser built from the same {len(my)} data points and "
+                            f"hyper-parameters {np.asarray(theta, float).tolist()} gives {wv!r} (relative deviation {r:.3e})", history=done, probe=pt, role=role, observed=gv, expected=wv)
+                    if m == "opt_func_gradient":
+                        if gg.shape != wg.shape:
+                            bad(f"history/probe/{aname}/opt_func_gradient/gradient-shape", f"after {where}: gradient of size {gg.size}, fresh {wg.size}", history=done)
+                        else:
+                            rg = max(rel_dev(float(a_), float(b_), float(np.abs(wg).max()) if np.all(np.isfinite(wg)) else 0.0) for a_, b_ in zip(gg, wg))
+                            counters["slack"][f"history/probe-vs-fresh/{cfg['acq']}/gradient"] = max(counters["slack"].get(f"history/probe-vs-fresh/{cfg['acq']}/gradient", 0.0), rg / PROBE_RTOL)
+                            if not rg <= PROBE_RTOL:
+                                bad(f"history/probe/{aname}/opt_func_gradient/gradient-differs-from-fresh-optimiser-on-the-same-data",
+                                    f"after {where}: gradient at probe '{role}' {pt} = {gg.tolist()}, fresh optimiser on the same data {wg.tolist()}", history=done, probe=pt, role=role)
+                if "opt_func" in vals and "opt_func_gradient" in vals:
+                    r = rel_dev(vals["opt_func_gradient"], vals["opt_func"], PROBE_FLOOR[cfg["acq"]]["opt_func"])
+                    counters["slack"][f"history/optvalue-vs-opt_func/{cfg['acq']}"] = max(counters["slack"].get(f"history/optvalue-vs-opt_func/{cfg['acq']}", 0.0), r / PROBE_RTOL)
+                    if not r <= PROBE_RTOL:
+                        bad(f"history/probe/{aname}/optvalue-differs-from-opt_func", f"after {where}: at probe '{role}' {pt} opt_func_gradient()[0] = {vals['opt_func_gradient']!r} but opt_func() = {vals['opt_func']!r}",
+                            history=done, probe=pt, role=role)
+                if all(np.isfinite(v) for v in vals.values()) and len(vals) == 3:
+                    counters["tags"].add(f"probe {role} d={d} acq={cfg['acq']} after-{'add' if just_added is not None else ('ctor' if not done else 'propose')} adds-so-far={min(nadd_now, 2)}")
+                else:
+                    counters["skipped"]["probe with a non-finite acquisition value (compared for identity only)"] = counters["skipped"].get("probe with a non-finite acquisition value (compared for identity only)", 0) + 1
+                carry["pt"] = list(pt)
+            counters["probed_states"] += 1
+
+        if invariants("constructor", []):
+            probes("constructor", [], None, None, 0)
         pending = None
         nadd = 0
         for pos, act in enumerate(hist):
@@ -598,7 +719,8 @@ def run_one_history(cfg, hist, bad, counters):
                 nadd += 1
                 dup = any(vals == r for r in mx[:-1])
                 counters["tags"].add(f"add {src.split('-')[0]} d={d} yerr={me is not None}{' duplicate-point' if dup else ''} new-max={yv == max(my)}")
-            invariants(f"{'.'.join(done)}", done)
+            if invariants(f"{'.'.join(done)}", done):
+                probes(".".join(done), done, vals if act == "A" else None, pending, nadd)
         counters["random_calls"] += script.calls
         pend = None if pending is None else np.asarray(pending, float).tobytes()
         return (np.array(mx).tobytes(), np.array(my).tobytes(), None if me is None else np.array(me).tobytes(), pend)
@@ -616,7 +738,7 @@ def ev_history(case):
         if seen[key] == 1:
             fails.append(fail(key, what, **kw))
 
-    counters = {"n": 0, "tags": set(), "random_calls": 0}
+    counters = {"n": 0, "tags": set(), "random_calls": 0, "slack": {}, "skipped": {}, "probed_states": 0}
     states = set()
     transitions = 0
     first = cfg["first"]
@@ -648,7 +770,8 @@ def ev_history(case):
             if f["key"] == k:
                 f["occurrences_in_case"] = c
     return {"fails": fails[:30], "n": counters["n"], "tags": tags, "states": len(states), "transitions": transitions, "traces": transitions,
-            "sample": {"config": cfg, "states": len(states), "transitions": transitions, "scripted_random_calls": counters["random_calls"]}}
+            "slack": counters["slack"], "skipped": counters["skipped"], "probed_states": counters["probed_states"],
+            "sample": {"config": cfg, "states": len(states), "transitions": transitions, "scripted_random_calls": counters["random_calls"], "states_probed": counters["probed_states"]}}
 
 
 EVALUATORS = {"acq": ev_acq, "selftest": ev_selftest, "history": ev_history}
@@ -702,6 +825,7 @@ def run(ck):
         "histories_per_configuration": 1 + 3 + 9 + 27,
         "states_distinct_data_and_pending_proposal": int(sum(r.get("states", 0) for r in res)),
         "transitions_executed_and_checked": int(sum(r.get("transitions", 0) for r in res)),
+        "post_states_probed_against_a_fresh_optimiser": int(sum(r.get("probed_states", 0) for r in res)),
         "depth": 3,
     }
     ck.rule = (
@@ -710,9 +834,17 @@ def run(ck):
         "Part C: every sequence of length <= 3 over {propose(bfgs), propose(diffev), add_evaluation} (40 histories per configuration, each rebuilt and replayed "
         "on fresh objects) x d{1,2} x acquisition x start script over {0,1/2,1-} x y_err{no,yes} x (bounds layout, input array form) - the quick tier takes a seed-rotated "
         "slice of that configuration product (15 configurations), the thorough tier all of it (320); states = distinct (data, pending proposal) reached, "
-        "transitions = calls whose post-state was checked."
+        "transitions = calls whose post-state was checked. In EVERY post-state (constructor and after every propose/add of every history) the optimiser's acquisition is "
+        "evaluated (__call__, opt_func, opt_func_gradient, in an order rotated by probe/history position, inputs alternately (1,d) and (d,)) at the probe menu "
+        "{last point probed in the previous state, point just added (first and again after the others), menu points 0 and 1 (probed before and after they are added), "
+        "an initial data point, a point never added, the pending proposal or else the menu point that would be added next} and compared with a fresh GpOptimiser built "
+        "directly from the accumulated data and the current model's hyper-parameters; a probe tag is (role, d, acquisition, kind of the last call, adds so far)."
     )
     ck.assume("continuous inputs are represented by the listed finite lattice (d<=2, n<=6, SquaredExponential kernel, z in [-40, 8]); z is steered through public inputs only (the mean-function constant, or inside the data hull the value of the incumbent data point); targets above the ceiling reachable inside the hull and points whose variance is below resolution are skipped and counted")
     ck.assume("ExpectedImprovement accuracy: the far-tail form's rounding error everywhere, and additionally the documented form sigma(z F + P) evaluated in doubles wherever that form's own error is below 1e-10 relative (z >~ -3.2); the location of the switch is not prescribed")
     ck.assume("scipy's differential_evolution draws from numpy's global RandomState, which is seeded per call; for it only 'the proposal lies in the bounds' and the data/incumbent invariants are claimed. The random starts of the bfgs route (numpy.random.random imported by name into inference.gp.acquisition and inference.gp.regression) are scripted: every call returns the constant 0, 1/2 or 1-, or cycles through them")
+    ck.assume("history-independence probes: the acquisition after any history must equal (1e-12 relative; against max(|.|, 1) for the O(1) sums -ln EI and mean + kappa sigma) that of a fresh "
+              "GpOptimiser given the accumulated data (x, y, y_err) and the hyper-parameters the optimiser's current model reports (GpRegressor.hyperpars) - the hyper-parameter SELECTION after a re-fit is not "
+              "compared, only what the acquisition computes from the selected model; the value part of opt_func_gradient must equal opt_func at every probe to the same tolerance; probing is assumed free of side effects "
+              "on the unchanged library (the scripted start counter is restored after building the reference object)")
     ck.assume("add_evaluation adds the pending proposal (the object propose_evaluation returned) when there is one, else the next point of a fixed menu in rotating input forms (float, (d,), (1,d), 0-d); y from a fixed deterministic objective")
